@@ -237,6 +237,25 @@ def d4(chk, repo):
         for e in r.events:
             if e.kind == "assign" and e.d.get("name") in ("xp", "dfp", "span", "weight", "taper", "x"):
                 asg[e.d.get("name")] = e.node
+        # the interpolation may live in a helper: locate the np.interp call actually evaluated
+        interp_call = None
+        for e in r.events:
+            if e.kind in ("assign", "return") or True:
+                nd = getattr(e, "node", None)
+                for x_ in (ast.walk(nd) if isinstance(nd, ast.AST) else ()):
+                    if isinstance(x_, ast.Call) and ast.unparse(x_.func).endswith("interp") and len(x_.args) == 3 and id(x_) in nv:
+                        interp_call = x_
+        if interp_call is not None and "weight" in asg and not (isinstance(asg["weight"].value, ast.Call) and ast.unparse(asg["weight"].value.func).endswith("interp")):
+            # weight = helper(...): use the helper's interp call for the argument check below
+            asg["weight"] = ast.Assign(targets=[ast.Name(id="weight", ctx=ast.Store())], value=interp_call, lineno=interp_call.lineno)
+            first = interp_call.args[0]
+            base_ = first.value if isinstance(first, ast.Attribute) and first.attr == "real" else first
+            if isinstance(base_, ast.Name) and base_.id != "x" and "x" not in asg:
+                # the helper's spanwise coordinate plays the role of x
+                for e in r.events:
+                    if e.kind == "call" and e.d.get("inlined"):
+                        pass
+                asg["x"] = ast.Assign(targets=[ast.Name(id="x", ctx=ast.Store())], value=base_, lineno=interp_call.lineno)
         key = "Taper %s" % tag
         if sym is None or not all(k in asg for k in ("xp", "dfp", "span", "weight", "taper")):
             chk.undecided("D4", key, c.where, "interpolation set-up not found")
@@ -285,7 +304,8 @@ def d4(chk, repo):
             a0 = ast.unparse(w.args[0]).replace(".real", "")
             a1 = ast.unparse(w.args[1]).replace(".real", "")
             a2 = ast.unparse(w.args[2]).replace(".real", "")
-            if (a0, a1, a2) == ("x", "xp", "dfp"):
+            xname = ast.unparse(asg["x"].value) if ("x" in asg and isinstance(asg["x"].value, ast.Name)) else "x"
+            if (a0, a1, a2) in (("x", "xp", "dfp"), (xname, "xp", "dfp")):
                 chk.ok("D4", k5, "%s:%d" % (c.mod.rel, w.lineno), "weight = interp(x, xp, dfp)")
             else:
                 chk.violation("D4", k5, "%s:%d" % (c.mod.rel, w.lineno), "weight = interp(%s, %s, %s); expected interp(x, xp, dfp)" % (a0, a1, a2))
